@@ -8,6 +8,7 @@ package main
 // goroutine are ignored (listed in the generated file).
 
 import (
+	"fmt"
 	"go/ast"
 	"go/token"
 	"strings"
@@ -269,7 +270,146 @@ func c08WrapSpec() *irSpec {
 	}
 }
 
+// c08CreateWrapperSpec: CircuitBreakerPolicy.CreateWrapper. The `*libcb.Policy` under construction is a local
+// of the model's `Policy` type; `policy.F = v` / `policy.F, _ = f(x)` become `{ policy with f := v }` (StmtHook).
+func c08CreateWrapperSpec() *irSpec {
+	fieldOf := map[string]string{"FailureRateThreshold": "failTh", "SlowCallRateThreshold": "slowTh", "SlidingWindowType": "timeBased",
+		"SlidingWindowSize": "size", "PermittedNumberOfCallsInHalfOpen": "permitted", "MinimumNumberOfCalls": "minCalls",
+		"SlowCallDurationThreshold": "slowDur", "MaxWaitDurationInHalfOpen": "maxWaitHalf", "WaitDurationInOpen": "waitOpen"}
+	tyOf := map[string]string{"failTh": "Nat", "slowTh": "Nat", "timeBased": "WinType", "size": "Nat", "permitted": "Nat", "minCalls": "Nat",
+		"slowDur": "Int", "maxWaitHalf": "Int", "waitOpen": "Int"}
+	s := &irSpec{
+		Name:    "createWrapperIR",
+		Binders: "(raw : RawPolicy) (parse : String → Int × Bool)",
+		BNames:  []string{"raw", "parse"},
+		RetTy:   "Policy",
+		Recv:    irTerm{"raw", "Raw"},
+		LeanTy:  map[string]string{"Raw": "RawPolicy", "CBPol": "Policy", "WinType": "Bool"},
+		Fields: map[string]irField{
+			"Raw.SlidingWindowType":                {Fmt: "%s.winType", Ty: "String"},
+			"Raw.FailureRateThreshold":             {Fmt: "%s.failTh", Ty: "Nat"},
+			"Raw.SlowCallRateThreshold":            {Fmt: "%s.slowTh", Ty: "Nat"},
+			"Raw.SlidingWindowSize":                {Fmt: "%s.size", Ty: "Nat"},
+			"Raw.PermittedNumberOfCallsInHalfOpen": {Fmt: "%s.permitted", Ty: "Nat"},
+			"Raw.MinimumNumberOfCalls":             {Fmt: "%s.minCalls", Ty: "Nat"},
+			"Raw.SlowCallDurationThreshold":        {Fmt: "%s.slowDur", Ty: "String"},
+			"Raw.MaxWaitDurationInHalfOpen":        {Fmt: "%s.maxWaitHalf", Ty: "String"},
+			"Raw.WaitDurationInOpen":               {Fmt: "%s.waitOpen", Ty: "String"},
+		},
+		Consts: map[string]irTerm{"libcb.CountBased": {"false", "WinType"}, "libcb.TimeBased": {"true", "WinType"},
+			"time.Minute": {"60000000000", "Int"}},
+		Funcs: map[string]irCall{
+			"strings.ToUpper":    {Fmt: "%[1]s.toUpper", Ty: "String", NArgs: 1},
+			"time.ParseDuration": {Fmt: "(parse %[1]s)", Ty: "Int × Error", NArgs: 1},
+			"libcb.New":          {Fmt: "%[1]s", Ty: "CBPol", NArgs: 1},
+		},
+		Ret: func(v []irTerm) (string, error) {
+			if len(v) != 1 || v[0].Ty != "CBPol" {
+				return "", errUnsupportedReturn
+			}
+			return v[0].S, nil
+		},
+	}
+	s.Ext.HookAssigns = true
+	s.Hook = func(t *irT, e ast.Expr, env *irEnv) (irTerm, bool, error) {
+		switch x := e.(type) {
+		case *ast.UnaryExpr:
+			// &libcb.Policy{Field: value, …}: unset fields are Go's zero values
+			cl, ok := x.X.(*ast.CompositeLit)
+			if !ok || x.Op != token.AND || t.r.Src(cl.Type) != "libcb.Policy" {
+				break
+			}
+			vals := map[string]string{"failTh": "0", "slowTh": "0", "timeBased": "false", "size": "0", "permitted": "0", "minCalls": "0",
+				"slowDur": "0", "maxWaitHalf": "0", "waitOpen": "0"}
+			for _, el := range cl.Elts {
+				kv, ok := el.(*ast.KeyValueExpr)
+				if !ok {
+					return irTerm{}, true, fmt.Errorf("unkeyed libcb.Policy literal")
+				}
+				f, ok := fieldOf[t.r.Src(kv.Key)]
+				if !ok {
+					return irTerm{}, true, fmt.Errorf("unknown libcb.Policy field %s", t.r.Src(kv.Key))
+				}
+				v, err := t.expr(kv.Value, env)
+				if err != nil {
+					return irTerm{}, true, err
+				}
+				if v.Ty != tyOf[f] && !(v.Ty == "lit" && tyOf[f] != "WinType") {
+					return irTerm{}, true, fmt.Errorf("libcb.Policy.%s: value of type %s", t.r.Src(kv.Key), v.Ty)
+				}
+				vals[f] = v.S
+			}
+			lit := "({ failTh := " + vals["failTh"] + ", slowTh := " + vals["slowTh"] + ", timeBased := " + vals["timeBased"] +
+				", size := " + vals["size"] + ", permitted := " + vals["permitted"] + ", minCalls := " + vals["minCalls"] +
+				", slowDur := " + vals["slowDur"] + ", maxWaitHalf := " + vals["maxWaitHalf"] + ", waitOpen := " + vals["waitOpen"] + " } : Policy)"
+			return irTerm{lit, "CBPol"}, true, nil
+		case *ast.CompositeLit:
+			// circuitBreakerWrapper{CircuitBreaker: libcb.New(policy)}: the wrapper is the breaker built from the policy
+			if t.r.Src(x.Type) == "circuitBreakerWrapper" && len(x.Elts) == 1 {
+				if kv, ok := x.Elts[0].(*ast.KeyValueExpr); ok && t.r.Src(kv.Key) == "CircuitBreaker" {
+					v, err := t.expr(kv.Value, env)
+					return v, true, err
+				}
+			}
+		}
+		return irTerm{}, false, nil
+	}
+	s.StmtHook = func(t *irT, st ast.Stmt, env *irEnv) ([]irLet, bool, error) {
+		as, ok := st.(*ast.AssignStmt)
+		if !ok || as.Tok != token.ASSIGN || len(as.Rhs) != 1 || len(as.Lhs) < 1 || len(as.Lhs) > 2 {
+			return nil, false, nil
+		}
+		se, ok := as.Lhs[0].(*ast.SelectorExpr)
+		if !ok {
+			return nil, false, nil
+		}
+		id, ok := se.X.(*ast.Ident)
+		if !ok {
+			return nil, false, nil
+		}
+		v, ok := env.vars[id.Name]
+		if !ok || v.Ty != "CBPol" {
+			return nil, false, nil
+		}
+		f, ok := fieldOf[se.Sel.Name]
+		if !ok {
+			return nil, true, fmt.Errorf("unknown libcb.Policy field %s", se.Sel.Name)
+		}
+		if len(as.Lhs) == 2 {
+			if b, ok := as.Lhs[1].(*ast.Ident); !ok || b.Name != "_" {
+				return nil, true, fmt.Errorf("unsupported assignment %s", t.r.Src(as))
+			}
+		}
+		rhs, err := t.tryExpr(as.Rhs[0], env)
+		if err != nil {
+			// the merge analysis asks with the environment *outside* the branch (an if-init variable such as `d`
+			// is unknown there): the target is what matters to it. In the real pass the term below cannot occur
+			// unless the right-hand side really is untranslatable — then the generated file does not compile.
+			return []irLet{{v.Lean, "CBPol", "(untranslatable_rhs : Policy)"}}, true, nil
+		}
+		val := rhs.S
+		if len(as.Lhs) == 2 {
+			parts := irSplitProd(rhs.Ty)
+			if len(parts) != 2 || parts[0] != tyOf[f] {
+				return nil, true, fmt.Errorf("%s: value of type %s", t.r.Src(as), rhs.Ty)
+			}
+			val = rhs.S + ".1"
+		} else if rhs.Ty != tyOf[f] && !(rhs.Ty == "lit" && tyOf[f] != "WinType") {
+			return nil, true, fmt.Errorf("%s: value of type %s", t.r.Src(as), rhs.Ty)
+		}
+		return []irLet{{v.Lean, "CBPol", "{ " + v.Lean + " with " + f + " := " + val + " }"}}, true, nil
+	}
+	return s
+}
+
 func init() {
+	register(Extractor{Module: "FactsC08IRc", Imports: []string{"EgVerif.Model.CircuitBreaker"}, Run: func(r *Repo, w *Lean) error {
+		w.Line("set_option linter.unusedVariables false")
+		w.Line("open EgVerif.CircuitBreaker")
+		w.Line("")
+		return irEmit(r, w, "pkg/resilience/circuitbreaker.go", "CircuitBreakerPolicy", "CreateWrapper", c08CreateWrapperSpec(),
+			"Result: the `libcb.Policy` the breaker is created with (`libcb.New(policy)`); `parse` = `time.ParseDuration`.")
+	}})
 	register(Extractor{Module: "FactsC08IRw", Imports: []string{"EgVerif.Model.CircuitBreaker"}, Run: func(r *Repo, w *Lean) error {
 		w.Line("set_option linter.unusedVariables false")
 		w.Line("open EgVerif.CircuitBreaker")
